@@ -10,7 +10,12 @@ CFG = {'assumptions': ['f64 inputs cross the boundary as bit patterns and are de
                  "'nearest' means |dist(x,p) - dist(p,g)| <= the same bound; where exact keys (squared "
                  'distances to a centroid, scan widths) tie within 2^-30 relative, every outcome reachable by '
                  'resolving the ties either way is accepted (tag near-tie-alt) — the f64 code compares rounded '
-                 'keys'],
+                 'keys',
+                 'interior points of polygons: the tolerance is multiplied by (1 + kappa), kappa = largest |dx/dy| of an '
+                 'edge crossing the scan line; polygons whose selected scan interval is narrower than 2^-40*(M+1) '
+                 '(no f64 point can be expected inside) and polygons with a vertex ordinate within 2^-40*(M+1) of the '
+                 'exact bounding-box middle (the branch coord.y == y_mid is taken on a rounded value) are SKIPped as '
+                 'near-ties — unless the implementation panics, which is always judged'],
  'count': {'quick': 60000, 'thorough': 2400000},
  'lean_files': ['GeoModel/Closest.lean', 'GeoModel/InteriorPoint.lean', 'GeoModel/Ops/C12.lean',
                 'GeoModel/RelateSpec.lean', 'GeoModel/Valid.lean', 'GeoModel/Centroid.lean',
@@ -18,7 +23,7 @@ CFG = {'assumptions': ['f64 inputs cross the boundary as bit patterns and are de
                 'GeoProofs/Lemmas/C12Closest.lean', 'GeoProofs/Lemmas/C12Interior.lean'],
  'rule': 'half closest_point, half interior_point; geometries: shapes::gen_valid (all 10 types, nested '
          'collections), dedicated streams of polyomino polygons whose hole touches the shell, thin slivers / '
-         'C-shapes / combs whose centroid is outside, mixed-dimension collections, empty and zero-length inputs, '
+         'C-shapes / combs whose centroid is outside, needles down to 1 ulp thin, rings with repeated vertices, mixed-dimension collections, empty and zero-length inputs, '
          'a quarter moved far from the origin by an exact dyadic similarity, non-grid f64 '
          'Line/LineString/Triangle/Rect; query points on a vertex, on an edge midpoint, one grid unit from a '
          'vertex, at the bounding-box centre (equidistant from several parts), anywhere on the half-unit lattice; '
@@ -39,9 +44,11 @@ MANIFEST = {'note': 'Trusted: Lean 4.33 kernel (axioms propext, Classical.choice
          'harness, generators and line protocol (sampling, not proof). The theorems are about the hand-written '
          'model; the model is tied to the code by running both on the same inputs each run. The sweep-line '
          'intersection finder and relate() are not modelled (see trusted_base). Known finding K1 (open): '
-         'Line / 2-vertex LineString interior_point is the start point, a boundary point. K2 (sweep panic) was '
-         'reproduced only on self-intersecting polygons (outside the domain; nondeterministic: the sweep orders '
-         'equal segments by heap address), not on 4M valid polygons with a hole touching the shell.',
+         'Line / 2-vertex LineString interior_point is the start point, a boundary point. Known finding K2 (open): '
+         'interior_point panics inside the sweep on valid polygons thinner than f64 resolution along the scan line '
+         'that also repeat a vertex (found by a needle stream; class pinned by the driver tag '
+         'sliver-with-repeated-vertex); not reproduced on 4M valid polygons with a hole touching the shell; the same '
+         'panic on self-intersecting polygons is outside the domain.',
  'technique': 'Lean 4 proof (clamped projection is the minimiser; best_of_two / closest_of is an arg-min fold with a '
               'sound early exit; per-type dispatch by mutual induction over the geometry tree; scan-loop and min_by '
               'lemmas) + model/implementation correspondence with an exact specification-side checker',
